@@ -62,6 +62,11 @@ func main() {
 		switch i % 6 {
 		case 0:
 			c.Pair, c.Mount = "same-reg", "grant"
+			if i%12 == 6 {
+				// the registry decides per blob: a declined mount says nothing about the next blob
+				c.Mount = "mixed"
+				c.Pre = "empty"
+			}
 		case 1:
 			c.Pair = "same-repo"
 			c.Pre = "empty"
@@ -248,6 +253,23 @@ func judge(run *ev.Run, r *copyeng.Result, preFP string) bool {
 		if mounts > 0 {
 			run.Count("clause_mount_cases", 1)
 			run.Count("mounts_observed", mounts)
+			applicable = true
+		}
+	}
+	// (c') same registry, mounts decided per blob: what the registry would mount is not transferred
+	if c.Pair == "same-reg" && c.Mount == "mixed" {
+		granted := 0
+		for _, n := range r.G.Nodes {
+			if n.IsManifest() || !modelreg.MixedMountGrants(n.Digest) || r.PreHas[n.Digest] {
+				continue
+			}
+			granted++
+			if srcGets[n.Digest] > 0 || commits[n.Digest] > 0 {
+				run.Violation("transfer-despite-mount/per-blob", fmt.Sprintf("the registry grants the mount of blob %s (it had declined others) but the blob was downloaded %d and uploaded %d time(s)", n.Digest, srcGets[n.Digest], commits[n.Digest]), w(nil))
+			}
+		}
+		if granted > 0 && mounts > 0 {
+			run.Count("clause_mount_per_blob_cases", 1)
 			applicable = true
 		}
 	}
